@@ -14,8 +14,8 @@ import textwrap
 import json
 
 GROUPS = {
-    "commit": r"commit|paths_overridden|paths_untouched|no_path_commit|load#|path_was_committed|returns_blob_of_committed_key",
     "dryrun": r"dry_run|no_commit_stage|delegates_once|only_stage_parsing",
+    "commit": r"commit|paths_overridden|paths_untouched|no_path_commit|load#|path_was_committed|returns_blob_of_committed_key",
     "value": r"returns_value_of_plain_execution|store_invariant|stored_under|stored_value|store_after_user_call|key_present|delegates_to__eval",
     "hit": r"hit_runs|hit_leaves|miss_runs|miss_result|kept_root_present",
     "failure": r"no_except_clause|nothing_stored_for_failed|no_path_commit_on_failure|context_dropped|user_exception_propagates|exception_propagates|exception_of_evaluation|eval_ctx_identity|attr_\w+_of_",
@@ -106,13 +106,28 @@ for stages in (["analysis", "store_inspect", "eval"], ["analysis", "store_inspec
     if exc is not None: bad("dryrun", "stages=%r: raised %r" % (stages, exc)); continue
     if "sync_paths" in k or s._paths: bad("dryrun", "stages=%r: paths were committed" % (stages,))
     if res != pipe.plain_root(): bad("dryrun", "stages=%r: returned %r" % (stages, res))
+# restricted runs on a populated store (every blob present: the root is a hit), with the paths currently pointing elsewhere
+for stages in (["analysis"], ["analysis", "store_inspect"], ["analysis", "store_inspect", "eval"], ["analysis", "store_inspect", "eval", "store_commit"], [PS.ANALYSIS, "STORE_INSPECT", "Eval"]):
+    s = fresh(); pipe.SCALE = 4
+    run()                       # full run: blobs of the SCALE=4 version, paths committed
+    pipe.SCALE = 6
+    run()                       # full run of another version: the paths now point to its blobs
+    pipe.SCALE = 4              # back: every blob of this version is in the store
+    before = dict(s._paths)
+    res, exc, ev, calls = run(stages)
+    k = kinds(ev)
+    if exc is not None: bad("dryrun", "stages=%r on a populated store: raised %r" % (stages, exc)); continue
+    if "sync_paths" in k or dict(s._paths) != before:
+        bad("dryrun", "stages=%r (no path_commit) on a store that already holds every blob: the paths were re-pointed (%s)" % (stages, [e for e in ev if e[0] == "sync_paths"]))
+    if "store_blob" in k: bad("dryrun", "stages=%r on a populated store: blobs stored" % (stages,))
+    if calls: bad("hit", "stages=%r on a populated store: executed %s" % (stages, calls))
 for stages in (["eval"], ["analysis", "eval"], ["bogus"], [3]):
     s = fresh()
     res, exc, ev, calls = run(stages)
     if not isinstance(exc, DDSException) or calls: bad("dryrun", "stages=%r: not rejected with a DDSException (%r), calls %s" % (stages, exc, calls))
 # ---- failing user functions ---------------------------------------------------------------------------------------
 for where in ("root", "nested"):
-    for cls in (ValueError, KeyboardInterrupt, SystemExit):
+    for cls in (ValueError, KeyError, KeyboardInterrupt, SystemExit):
         s = fresh(); pipe.SCALE = 7
         pipe.FAIL = (where, cls("boom"))
         res, exc, ev, calls = run()
